@@ -71,7 +71,7 @@ pub fn mutate(rng: &mut Rng, src: &[u8]) -> (Vec<u8>, String) {
             let dl = hd.dsize as u32;
             let newv: u32 = match field {
                 0 => { let other = hd.entries[rng.below(hd.entries.len() as u64) as usize].tag; *rng.pick(&[cur.wrapping_add(1), cur.wrapping_sub(1), 0, 62, 63, 100, 1000, 5092, 5093, u32::MAX, other]) }
-                1 => rng.below(12) as u32,
+                1 => match rng.below(5) { 0 => cur | 0x0001_0000, 1 => cur | 0x8000_0000, 2 => cur | 0x0000_0100, _ => rng.below(12) as u32 },
                 2 => *rng.pick(&[cur.wrapping_add(1), cur.wrapping_sub(1), 0, dl.wrapping_sub(1), dl, dl + 1, 0x7FFF_FFFF, 0x8000_0000, u32::MAX, cur ^ 0x8000_0000]),
                 _ => *rng.pick(&[cur.wrapping_add(1), cur.wrapping_sub(1), 0, 1, dl, dl + 1, 0x0FFF_FFFF, 0x1000_0000, 0x7FFF_FFFF, 0x8000_0000, u32::MAX]),
             };
